@@ -16,7 +16,7 @@ Outcomes (`Out`):
 * `invalid` — the op mentions a handle that no earlier call returned (impossible through the Rust API:
   handle types have private fields). State unchanged.
 
-Not modelled: kernel lib mappings, sample columns other than `stack` (C04),
+Not modelled: sample columns other than `stack` (C04),
 timestamps of samples and markers, marker schema display fields, colours.
 Core Lean only.
 -/
@@ -78,6 +78,8 @@ structure P where
   staticTypes : List (Nat × Nat) := []
   usedPids : List (Nat × Nat) := []
   usedTids : List (Nat × Nat) := []
+  /-- `kernel_libs` (profile.rs:448-465): kernel library mappings, global across processes -/
+  kmaps : List Mapping := []
 deriving Repr
 
 def P.init : P := {}
@@ -122,6 +124,8 @@ inductive Op
   | libSyms (lib : Nat) (syms : List Sym)
   | addMapping (p lib start end_ rel : Nat)
   | removeMapping (p start : Nat)
+  | addKernelMapping (lib start end_ rel : Nat)
+  | removeKernelMapping (start : Nat)
   | clearMappings (p : Nat)
   | string (s : Str)
   | category (name : Str) (color : Nat)
@@ -233,7 +237,7 @@ inductive AddrRes
   | invalid
 
 /-- `resolve_frame_address` (profile.rs:1163-1196) with `Process::convert_address`
-(process.rs:80-97; kernel libs are not modelled). Only `libs` changes. -/
+(process.rs:80-97; the caller passes `effMaps`, the table that decides the address). Only `libs` changes. -/
 def resolveAddr (libs : GlobalLibs) (maps : List Mapping) : AddrSpec → GlobalLibs × AddrRes
   | .abs k a =>
     match mappingConvert maps (k.adjust a) with
@@ -243,6 +247,14 @@ def resolveAddr (libs : GlobalLibs) (maps : List Mapping) : AddrSpec → GlobalL
   | .rel k lib a =>
     if lib < libs.all.length then ((libs.indexForUsed lib).1, .inLib (k.adjust a) (libs.indexForUsed lib).2)
     else (libs, .invalid)
+
+/-- `Process::convert_address` (process.rs:80-97) tries the kernel libs first and then the process libs
+(`kernel_libs.convert_address(address).or_else(|| self.libs.convert_address(address))`): the mapping table
+that decides an absolute address is the kernel table if a kernel mapping covers the address (then
+`convert_address` returns `Some` or overflows there), otherwise the process table. -/
+def effMaps (kmaps maps : List Mapping) : AddrSpec → List Mapping
+  | .abs k a => if (mappingLookup kmaps (k.adjust a)).isSome then kmaps else maps
+  | .rel _ _ _ => maps
 
 /-- the global string behind a `StringHandle` -/
 def P.gstr (p : P) (g : Nat) : Option Str := p.gstrings.strings[g]?
@@ -291,7 +303,7 @@ def P.frameAddr (p : P) (t : Nat) (a : AddrSpec) (c s flags : Nat) : P × Out :=
     match p.processes[th.process]? with
     | none => (p, .bug)
     | some pr =>
-      match resolveAddr p.libs pr.maps a with
+      match resolveAddr p.libs (effMaps p.kmaps pr.maps a) a with
       | (_, .invalid) => (p, .invalid)
       | (_, .panic) => (p, .panic)
       | (libs, .unknown addr) =>
@@ -343,7 +355,7 @@ def P.frameSym (p : P) (t : Nat) (a : AddrSpec) (name : Option Nat) (nsym : TH)
     match p.processes[th.process]? with
     | none => (p, .bug)
     | some pr =>
-      match resolveAddr p.libs pr.maps a with
+      match resolveAddr p.libs (effMaps p.kmaps pr.maps a) a with
       | (_, .invalid) => (p, .invalid)
       | (_, .panic) => (p, .panic)
       | (libs, res) =>
@@ -566,6 +578,16 @@ def step (p : P) : Op → P × Out
         | none => (p, .panic)
         | some maps => ({ p with processes := p.processes.set pi { pr with maps := maps } }, .ok)
       else (p, .invalid)
+  | .addKernelMapping lib start end_ rel =>
+    -- profile.rs:448-458
+    if lib < p.libs.all.length then
+      match mappingAdd p.kmaps ⟨start, end_, rel, lib⟩ with
+      | none => (p, .panic)
+      | some maps => ({ p with kmaps := maps }, .ok)
+    else (p, .invalid)
+  | .removeKernelMapping start =>
+    -- profile.rs:462-464
+    ({ p with kmaps := p.kmaps.filter (fun m => m.start ≠ start) }, .ok)
   | .removeMapping pi start =>
     -- profile.rs:433-435, process.rs:110-112, lib_mappings.rs:96-100: `BTreeMap::remove(&start_avma)`
     match p.processes[pi]? with
